@@ -40,6 +40,153 @@ func runC09(r *kit.Run) {
 		}
 		c09Hook(r, i, r.Rng("hook", i))
 	}
+	nt := int64(r.Scale(60, 3000))
+	for i := int64(0); i < nt && !r.Stopped(); i++ {
+		if !r.Mine(i) {
+			continue
+		}
+		if i%3 == 2 {
+			c09Fill(r, i, r.Rng("fill", i))
+		} else {
+			c09Trickle(r, i, r.Rng("trickle", i))
+		}
+	}
+}
+
+// c09Trickle: one broker built by the library's constructor, one reading
+// subscriber, thousands of tiny bursts (1-2 messages), each awaited before
+// the next: a message that stays behind until "the next publish" is stuck
+// here, because the next publish only comes after it was delivered.
+func c09Trickle(r *kit.Run, idx int64, rng *rand.Rand) {
+	cfg := brokerCfg{Backend: []string{"queue-unlimited", "queue-unlimited", "deque-unlimited", "channel", "deque-cap"}[rng.IntN(5)], Direct: true, Delay: "none",
+		Workers: []int{0, 1, 1, 2}[rng.IntN(4)], Parallel: rng.IntN(2) == 0, Cap: 2 + rng.IntN(4)}
+	if strings.HasPrefix(cfg.Backend, "deque") && cfg.Workers > 1 {
+		cfg.Workers = 1 // DESIGN 3.3
+	}
+	procs := []int{2, 4, 16}[rng.IntN(3)]
+	rounds := 3000
+	desc := map[string]any{"mode": "trickle", "config": cfg, "rounds_of_1_or_2_messages": rounds, "gomaxprocs": procs}
+	r.EvalN(int64(rounds))
+	r.Current(idx, fmt.Sprintf("C09 %+v", desc))
+	viol, inconclusive := "", ""
+	sent := 0
+	kit.WithProcs(procs, func() {
+		h := newBrokerHarness(cfg)
+		var got atomic.Int64
+		ch := h.b.Subscribe(h.ctx)
+		stop := make(chan struct{})
+		go func() {
+			for {
+				select {
+				case <-stop:
+					return
+				case <-ch:
+					got.Add(1)
+				}
+			}
+		}()
+		defer func() { close(stop); h.b.Stop(); h.cancel() }()
+		if !waitSubscribed(h, 1) {
+			inconclusive = "subscription was not registered"
+			return
+		}
+		for k := 0; k < rounds; k++ {
+			n := 1 + k%2
+			for m := 0; m < n; m++ {
+				sent++
+				h.b.Publish(h.ctx, uint32(sent))
+			}
+			want := int64(sent)
+			if met, q, cs := kit.Await(5*time.Second, c08Watchdog, func() bool { return got.Load() >= want }); !met {
+				if q {
+					viol = fmt.Sprintf("round %d: %d messages were published (every Publish returned) and the subscriber keeps receiving, yet only %d arrived; depth %d; at quiescence: %v", k, sent, got.Load(), h.depth(), clipStrs(cs.Describe(), 8))
+				} else {
+					inconclusive = "deliveries incomplete, not quiescent"
+				}
+				return
+			}
+		}
+	})
+	switch {
+	case viol != "":
+		r.Violation("C09/"+cfg.Backend+"/stalled", idx, desc, viol, nil)
+	case inconclusive != "":
+		r.Inconclusive("C09 trickle: " + inconclusive)
+	default:
+		r.Count("trickle_rounds", int64(rounds))
+		r.Distinct(fmt.Sprintf("trickle|%s|w=%d|par=%v|p=%d", cfg.Backend, cfg.Workers, cfg.Parallel, procs))
+	}
+}
+
+// c09Fill: many short-lived brokers with a buffered subscription that
+// nobody drains and several dispatch workers racing for its last free
+// slots; then Stop: Wait returns and nothing of the broker is left.
+func c09Fill(r *kit.Run, idx int64, rng *rand.Rand) {
+	brokers := 60
+	procs := []int{4, 16}[rng.IntN(2)]
+	how := []string{"Stop", "cancel-parent"}[rng.IntN(2)]
+	desc := map[string]any{"mode": "fill-buffered-subscription", "brokers": brokers, "how": how, "gomaxprocs": procs}
+	r.EvalN(int64(brokers))
+	r.Current(idx, fmt.Sprintf("C09 %+v", desc))
+	viol, violKind, inconclusive := "", "", ""
+	var last brokerCfg
+	kit.WithProcs(procs, func() {
+		for k := 0; k < brokers && viol == "" && inconclusive == ""; k++ {
+			cfg := brokerCfg{Backend: []string{"channel", "queue-unlimited", "queue-bounded"}[rng.IntN(3)], Direct: rng.IntN(2) == 0, Delay: "none",
+				Buffer: []int{1, 2, 3, 8}[rng.IntN(4)], Workers: []int{2, 4, 8}[rng.IntN(3)], Parallel: true, Cap: 64}
+			last = cfg
+			h := newBrokerHarness(cfg)
+			_ = h.b.Subscribe(h.ctx) // nobody reads it
+			if !waitSubscribed(h, 1) {
+				inconclusive = "subscription was not registered"
+				h.cancel()
+				return
+			}
+			pctx, pcancel := context.WithCancel(h.ctx)
+			var pwg sync.WaitGroup
+			for m := 0; m < cfg.Buffer+cfg.Workers+2+rng.IntN(4); m++ {
+				pwg.Add(1)
+				go func(m int) { defer pwg.Done(); h.b.Publish(pctx, uint32(m+1)) }(m)
+			}
+			kit.Yields(20 + rng.IntN(200))
+			if how == "Stop" {
+				h.b.Stop()
+			} else {
+				h.cancel()
+			}
+			waitRet := make(chan struct{})
+			go func() { h.b.Wait(context.Background()); close(waitRet) }()
+			met, q, cs := kit.Await(5*time.Second, c08Watchdog, func() bool { return isClosed(waitRet) })
+			pcancel()
+			h.cancel()
+			switch {
+			case !met && q:
+				violKind, viol = "shutdown-hangs", fmt.Sprintf("broker %d (%+v): after %s Wait() does not return; at quiescence: %v", k, cfg, how, clipStrs(cs.Describe(), 8))
+			case !met:
+				inconclusive = "Wait did not return, not quiescent"
+			}
+			pwg.Wait()
+		}
+		if viol != "" || inconclusive != "" {
+			return
+		}
+		cs, q := kit.Quiesce(c08Watchdog)
+		if !q {
+			inconclusive = "not quiescent after the brokers were stopped"
+		} else if left := brokerGoroutines(cs); len(left) > 0 {
+			violKind, viol = "goroutine-leak", fmt.Sprintf("after %d stopped brokers, broker goroutines are still alive at quiescence: %v; %v", brokers, left, clipStrs(cs.Describe(), 8))
+		}
+	})
+	switch {
+	case viol != "":
+		desc["config"] = last
+		r.Violation("C09/"+last.Backend+"/"+violKind, idx, desc, viol, nil)
+	case inconclusive != "":
+		r.Inconclusive("C09 fill: " + inconclusive)
+	default:
+		r.Count("buffered_subscription_brokers_stopped", int64(brokers))
+		r.Distinct(fmt.Sprintf("fill|%s|p=%d", how, procs))
+	}
 }
 
 func brokerGoroutines(c kit.Census) []string {
